@@ -407,6 +407,9 @@ class ImmediateOperand(Operand):
             raise OperandTypeError(
                 "Instruction [{}] does not support immediate addressing".format(self.instruction.mnemonic)
             )
+        if self.value.is_numeric() and not self.instruction.is_16_bit and \
+                self.value.int > (128 if self.value.is_negative() else 255):
+            raise OperandTypeError("[{}] does not fit in 8 bits".format(self.operand_string))
         return CodePackage(
             op_code=NumericValue(self.instruction.mode.imm),
             additional=self.value,
